@@ -718,6 +718,16 @@ impl DB {
                     max_level_with_files_for_compaction = level;
                 }
             }
+            #[cfg(feature = "verif")]
+            crate::verif::event(
+                self.options.db_path(),
+                crate::verif::Event::ManualRange {
+                    lo: key_range.start.map(|key| key.to_vec()),
+                    hi: key_range.end.map(|key| key.to_vec()),
+                    levels: crate::verif::dump_levels(&db_fields_guard.version_set),
+                    max_level: max_level_with_files_for_compaction,
+                },
+            );
         }
 
         if let Err(compaction_err) = self.force_memtable_compaction() {
@@ -2263,8 +2273,25 @@ impl DB {
                 InternalKey::new(user_key.to_vec(), 0, Operation::try_from(0).unwrap())
             }),
         };
+        #[cfg(feature = "verif")]
+        let verif_request = (
+            manual_compaction
+                .begin
+                .as_ref()
+                .map(crate::verif::ikey_tuple),
+            manual_compaction.end.as_ref().map(crate::verif::ikey_tuple),
+        );
         let wrapped_manual_compaction = Arc::new(Mutex::new(manual_compaction));
         let mut db_fields_guard = self.guarded_fields.lock();
+        #[cfg(feature = "verif")]
+        crate::verif::event(
+            self.options.db_path(),
+            crate::verif::Event::ManualRequest {
+                level,
+                begin: verif_request.0,
+                end: verif_request.1,
+            },
+        );
         let db_state = self.generate_portable_state();
 
         while !wrapped_manual_compaction.lock().done
